@@ -275,8 +275,9 @@ Definition restart_body (o : inst) (c : config) (s : state) : state * list event
   let s1 := commit (mkInst i (i_root o) c saved) (next_after c i) s in
   (* success! stop the old instance *)
   let '(s2, e3) := stop_inst o s1 in
-  let '(e4, ok4) := run_stop KShutdown h (c_shutdown (i_cfg o)) in
-  if negb ok4 then (s2, e1 ++ e2 ++ e3 ++ e4 ++ failed, RInst false h) else
+  (* every OnShutdown callback of the old instance runs; an error is logged only: the reload
+     has succeeded *)
+  let e4 := run_all KShutdown h (c_shutdown (i_cfg o)) in
   (s2, e1 ++ e2 ++ e3 ++ e4 ++ [EHook HInstanceStartup i], RInst true i).
 
 Definition do_restart (h : nat) (c : config) (s : state) : state * list event * result :=
